@@ -153,7 +153,7 @@ def _layout_text(prog, choices, toks=None, offsets=None, weird=False):
                 text = num_text(v, "plus")
             except ValueError:
                 v = float(text)
-                sp = ["plus", "trail", "upper", "plus"][ch() % 4]
+                sp = ["plus", "trail", "upper", "nolead"][ch() % 4]
                 t2 = num_text(v, sp)
                 if float(t2) == v:
                     text = t2
@@ -225,7 +225,7 @@ def _nearmiss_case(ch):
     prog, _b = gen.make_prog(ch, gen.Cfg(max_depth=3, max_body=3, max_lets=2, max_maps=2, max_macros=2, general_numbers=False))
     muts = []
     for _ in range(ch.pick([0, 1, 1, 1, 1, 1, 2, 2])):
-        muts.append([ch.pick(["delete", "duplicate", "swap", "replace", "replace", "insert"]), ch.int(0, 10**6), ch.int(0, len(POOL) - 1)])
+        muts.append([ch.pick(["delete", "duplicate", "swap", "replace", "replace", "insert", "bad-register-size"]), ch.int(0, 10**6), ch.int(0, len(POOL) - 1)])
     order = [[ch.int(0, 50), ch.int(0, 50)] for _ in range(ch.pick([0, 0, 1, 1, 2]))]
     return {"prog": prog, "seps": ch.ints(16, 0, 5), "muts": muts, "order": order}
 
@@ -326,6 +326,48 @@ def _rule_level(vt):
     return None
 
 
+_HEADER_HEADS = ("usepulses", "let", "register", "map")
+_HEADER_START = {"FROM", "LET", "REG", "MAP", "IMPORT"}
+
+
+def _in_header_region(vt, k):
+    """Tokens 0..k-1 are all header: every statement so far starts with a header keyword (no
+    brace, bracket pair of a body, macro, loop ...) - the failure at token k is a header failure."""
+    start = True
+    for kind, _v in vt[: (len(vt) if k is None else k)]:
+        if kind in ("NL", ";"):
+            start = True
+            continue
+        if start:
+            if kind not in _HEADER_START:
+                return False
+            start = False
+        elif kind in ("{", "}", "<", ">", "|", "MACRO", "LOOP", "SUBCIRCUIT", "BRANCH"):
+            return False
+    return True
+
+
+def _header_only(text, vt, acc, k, tree):
+    """parse_to_sexpression(header_only=True) / parse_jaqal_string_header: the header part is
+    parsed like any text - a malformed header is a parse error, a well-formed one gives exactly
+    the header statements."""
+    from jaqalpaq.parser.parser import parse_to_sexpression
+    from jaqalpaq.parser.slyparse import JaqalParseError
+
+    st_, got = guard(parse_to_sexpression, text, header_only=True, what="parse_to_sexpression(header_only)")
+    if acc and tree is not None:
+        if st_ == "err":
+            raise Violation("rejected-grammatical-text", f"header_only: {got}\n--- text:\n{text}", where="header-only")
+        want = [x for x in plain(tree) if x == "circuit" or (isinstance(x, list) and x and x[0] in _HEADER_HEADS)]
+        if repr(plain(got)) != repr(want):
+            raise Violation("tree-differs", f"header_only got {plain(got)}\nexpected {want}\n--- text:\n{text}", where="header-only")
+    elif not acc and _in_header_region(vt, k):
+        if st_ == "ok":
+            raise Violation("accepted-ungrammatical-text", f"header_only: malformed header (first offending token {k}) accepted as {plain(got)}\n--- text:\n{text}", where="header-only")
+        if not isinstance(got, JaqalParseError):
+            raise Violation("wrong-error-type", f"header_only: {type(got).__name__}: {got}\ntext:\n{text}", where="header-only")
+
+
 def negative(case):
     from jaqalpaq.parser.parser import parse_to_sexpression
     from jaqalpaq.parser.slyparse import JaqalParseError
@@ -346,6 +388,13 @@ def negative(case):
             toks[i] = POOL[pool_i]
         elif op == "insert":
             toks.insert(i, POOL[pool_i])
+        elif op == "bad-register-size":
+            # grammatical, but refused by the register rule itself: the error must still point
+            # into (or after) that statement
+            for j, (k_, s_) in enumerate(toks):
+                if s_ == "register" and j + 3 < len(toks) and toks[j + 2][1] == "[":
+                    toks[j + 3] = ("INT", ["0", "-1", "-7"][pool_i % 3])
+                    break
     text, posn = _render_positions(toks)
     vt = _value_tokens(toks)
     kinds = [k for k, _v in vt]
@@ -362,7 +411,13 @@ def negative(case):
                 raise Violation("rule-level-accepted", f"text:\n{text}")
             if not isinstance(got, JaqalParseError):
                 raise Violation("wrong-error-type", f"{type(got).__name__}: {got}\ntext:\n{text}")
-            return {"nontrivial": False, "classes": classes + ["rule-level"], "key": text}
+            line, col = got.line, got.column
+            if isinstance(line, int) and posn and (line, col) <= posn[-1]:
+                if (line, col) not in posn:
+                    raise Violation("position-not-a-token", f"rule-level error reported {line}:{col}, token starts {posn}\n--- text:\n{text}", where="rule-level")
+                if posn.index((line, col)) < rl:
+                    raise Violation("position-before-offending-token", f"rule-level error reported {line}:{col} = token {posn.index((line, col))}, the refused statement starts at token {rl}\n--- text:\n{text}", where="rule-level")
+            return {"nontrivial": True, "classes": classes + ["rule-level"], "key": text, "sample": {"text": text, "refused_statement_at_token": rl, "reported": [line, col]}}
         if st_ == "err":
             raise Violation("rejected-grammatical-text", f"{got}\n--- text:\n{text}")
         ok, tree = refgrammar.rd_parse(vt)
@@ -370,8 +425,13 @@ def negative(case):
             raise RuntimeError(f"reference recognizer and reference parser disagree on {text!r}")
         if repr(plain(got)) != repr(plain(tree)):
             raise Violation("tree-differs", f"got      {plain(got)}\nexpected {plain(tree)}\n--- text:\n{text}")
+        _header_only(text, vt, True, None, tree)
         return {"nontrivial": False, "classes": classes, "key": text}
     classes.append("recognizer-rejects" + ("-at-end" if k is None else ""))
+    if rl is None or (k is not None and k < rl):
+        _header_only(text, vt, False, k, None)
+        if _in_header_region(vt, k):
+            classes.append("malformed-header")
     if st_ == "ok":
         raise Violation("accepted-ungrammatical-text", f"first offending token index {k}\n--- text:\n{text}\n--- tree: {plain(got)}")
     if not isinstance(got, JaqalParseError):
@@ -459,9 +519,78 @@ def positions(case):
     return {"nontrivial": stats["block"] >= 1, "classes": ["weird-comment" if weird_used else "plain-comment", "multi-line-comment"] if "\n" in text else ["single-line"], "key": text, "sample": {"text": text, "reported": [line, col], "inserted_at": list(posn[k])}}
 
 
+# ------------------------------------------------------------------------------ adjacency
+# Tokens written WITHOUT white space between them: the token shapes (longest match; a NUMBER
+# needs a dot, its exponent needs the dot too; identifiers may contain dots but not two in a
+# row; a sign belongs to the number that follows) decide where one token ends.  A small table
+# written by hand from those shapes - the generated layouts always separate tokens.
+
+ADJACENT = [
+    ("g 1e5", [["gate", "g", 1, "e5"]]),
+    ("g 2E3 q", [["gate", "g", 2, "E3", "q"]]),
+    ("g 1.5e3", [["gate", "g", 1500.0]]),
+    ("g 1.5E-3x", [["gate", "g", 0.0015, "x"]]),
+    ("loop 2{g}", [["loop", 2, ["sequential_block", ["gate", "g"]]]]),
+    ("g q[0]q[1]", [["gate", "g", ["array_item", "q", 0], ["array_item", "q", 1]]]),
+    ("g -1-2", [["gate", "g", -1, -2]]),
+    ("g 1+2", [["gate", "g", 1, 2]]),
+    ("g a.b.c", [["gate", "g", "a.b.c"]]),
+    ("g 1e+5", [["gate", "g", 1, "e", 5]]),
+    ("g 1_0", [["gate", "g", 1, "_0"]]),
+    ("g 0x10", [["gate", "g", 0, "x10"]]),
+    ("g 1;;h 2", [["gate", "g", 1], ["gate", "h", 2]]),
+    ("<g|h>", [["parallel_block", ["gate", "g"], ["gate", "h"]]]),
+    ("g 1.5e", [["gate", "g", 1.5, "e"]]),
+    ("g 5e1.5", [["gate", "g", 5, "e1.5"]]),
+    ("g .5", [["gate", "g", 0.5]]),
+    ("g -.5", [["gate", "g", -0.5]]),
+    ("g +.5e1", [["gate", "g", 5.0]]),
+    ("g 1.5.5", [["gate", "g", 1.5, 0.5]]),
+    ("g .5e1x", [["gate", "g", 5.0, "x"]]),
+    ("let x .25", [["let", "x", 0.25]]),
+    ("let x 1e5", None),
+    ("let x 1.0e5y", None),
+    ("g 1.e5", None),
+    ("g a..b", None),
+    ("g 1.", None),
+    ("let x 1\nregister q[2]g q[0]", None),
+    ("macro m a{g a}m 1", None),
+    ("from .5 usepulses *", None),
+    ("loop2 {g}", None),
+    ("loop 2.0{g}", None),
+]
+
+
+def adjacency(case):
+    from jaqalpaq.parser.parser import parse_to_sexpression
+    from jaqalpaq.parser.slyparse import JaqalParseError
+
+    text, want = ADJACENT[case["i"]]
+    text = text + ("\n" if case["nl"] else "")
+    st_, got = guard(parse_to_sexpression, text, what="parse_to_sexpression")
+    if want is None:
+        if st_ == "ok":
+            raise Violation("accepted-ungrammatical-text", f"{text!r} -> {plain(got)}", where="adjacency")
+        if not isinstance(got, JaqalParseError):
+            raise Violation("wrong-error-type", f"{type(got).__name__}: {got}\ntext: {text!r}", where="adjacency")
+    else:
+        if st_ == "err":
+            raise Violation("rejected-legal-text", f"{got}\n--- text: {text!r}", where="adjacency")
+        if repr(plain(got)) != repr(["circuit"] + want):
+            raise Violation("tree-differs", f"{text!r}: got {plain(got)}, expected {['circuit'] + want}", where="adjacency")
+    return {"nontrivial": True, "classes": ["accept" if want is not None else "reject"], "key": text, "sample": {"text": text, "expected": want}}
+
+
+def _adj_enum(tier):
+    for i in range(len(ADJACENT)):
+        for nl in (False, True):
+            yield {"i": i, "nl": nl}
+
+
 def parts():
     return [
         Part("error-position-layout", gen.cases(_position_case), positions, quick=2500, thorough=60000, min_nontrivial=0.3),
         Part("layout-positive", layout_cases(), positive, quick=4000, thorough=120000, min_nontrivial=0.2),
         Part("near-miss", nearmiss_cases(), negative, quick=5000, thorough=150000, min_nontrivial=0.2),
+        Part("adjacency", None, adjacency, quick=0, thorough=0, exhaustive=_adj_enum, shards=1),
     ]
